@@ -1,7 +1,7 @@
 (** DSL/PropsLemmas.v - the proofs of the statements of Props/C10..C12 (the Props files only
     restate them and apply these lemmas). *)
 From Coq Require Import String List ZArith Bool Arith.
-From PV.DSL Require Import Syntax Values Target Compile Interp Exec Laws Sound CompileProps Main Faults Causal HermMain.
+From PV.DSL Require Import Syntax Values Target Compile Interp Exec Laws Sound CompileProps Main Faults Causal HermMain Stratified Terminate Examples.
 From PV.Gen Require Import Algorithms_gen.
 Import ListNotations.
 Open Scope string_scope.
@@ -138,4 +138,123 @@ Lemma L_C09_sound_main :
 Proof.
   intros V O eqv L W sfn H1 H2 H3 H4 H5 H6.
   exact (schedule_value L (@main_world_ok V O eqv L W sfn H1 H2 H3 H4 H5 H6)).
+Qed.
+
+(* ------------------------------------------------------------------ termination *)
+
+Definition fuel_ok (alg : algorithm) (fuel : nat) (rs : list request) : Prop :=
+  Forall (fun r => fuel_bound alg (snd r) <= fuel) rs.
+
+Definition start_inputs_ok V (alg : algorithm) (W : xworld V) : Prop :=
+  forall d x, In d (aseries alg) -> sstart d = StartInput x -> mem_string x (xw_inputs W) = true.
+
+Definition fn_total V (W : xworld V) : Prop := forall f args ix, xw_fn W f args ix <> OutOfFuel.
+Arguments fn_total {V} W.
+Arguments start_inputs_ok {V} alg W.
+
+Lemma L_C09_terminates :
+  forall (V : Type) (O : vops V) (alg : algorithm) (W : xworld V),
+  stratified alg = true -> fn_total W -> start_inputs_ok alg W ->
+  forall fuel c rs os s',
+    fuel_ok alg fuel rs ->
+    run_all O alg (compile alg) W fuel (init_state alg W c) rs = (os, s') ->
+    Forall (fun o => o <> OutOfFuel) os.
+Proof.
+  intros V O alg W Hs Hf Hi fuel c rs os s' Hb E.
+  exact (proj1 (run_all_no_oof V O alg W Hs Hf Hi fuel rs _ os s' (init_SI V O alg W c) Hb E)).
+Qed.
+
+Lemma main_start_inputs V (W : xworld V) : mem_string "H" (xw_inputs W) = true -> start_inputs_ok main_alg W.
+Proof.
+  intros HH d x Hd S. unfold main_alg in Hd. cbn [aseries In] in Hd.
+  repeat (destruct Hd as [<-|Hd]; [cbn in S; try discriminate; inversion S; subst; exact HH|]). destruct Hd.
+Qed.
+
+Lemma nh_start_inputs V (W : xworld V) : mem_string "H" (xw_inputs W) = true -> start_inputs_ok nonhermitian_alg W.
+Proof.
+  intros HH d x Hd S. unfold nonhermitian_alg in Hd. cbn [aseries In] in Hd.
+  repeat (destruct Hd as [<-|Hd]; [cbn in S; try discriminate; inversion S; subst; exact HH|]). destruct Hd.
+Qed.
+
+Lemma L_C09_terminates_main :
+  forall (V : Type) (O : vops V) (W : xworld V),
+  fn_total W -> mem_string "H" (xw_inputs W) = true ->
+  forall fuel c rs os s',
+    fuel_ok main_alg fuel rs ->
+    run_all O main_alg (compile main_alg) W fuel (init_state main_alg W c) rs = (os, s') ->
+    Forall (fun o => o <> OutOfFuel) os.
+Proof.
+  intros V O W Hf HH. exact (L_C09_terminates V O main_alg W main_stratified Hf (main_start_inputs V W HH)).
+Qed.
+
+Lemma L_C09_terminates_nh :
+  forall (V : Type) (O : vops V) (W : xworld V),
+  fn_total W -> mem_string "H" (xw_inputs W) = true ->
+  forall fuel c rs os s',
+    fuel_ok nonhermitian_alg fuel rs ->
+    run_all O nonhermitian_alg (compile nonhermitian_alg) W fuel (init_state nonhermitian_alg W c) rs = (os, s') ->
+    Forall (fun o => o <> OutOfFuel) os.
+Proof.
+  intros V O W Hf HH. exact (L_C09_terminates V O nonhermitian_alg W nonhermitian_stratified Hf (nh_start_inputs V W HH)).
+Qed.
+
+(** soundness of the shipped algorithms without the premise "no outcome is OutOfFuel" *)
+Lemma L_C09_sound_main_total :
+  forall (V : Type) (O : vops V) (eqv : V -> V -> Prop), vlaws O eqv ->
+  forall (W : xworld V) (sfn : string -> list V -> index -> V),
+  (forall x, In x (xw_inputs W) -> has_at x = false) ->
+  (forall f l l' ix, Forall2 eqv l l' -> eqv (sfn f l ix) (sfn f l' ix)) ->
+  (forall f args ix r, xw_fn W f args ix = Ok r -> eqv (den O r) (sfn f (map (den O) args) ix)) ->
+  (forall a, eqv a (v0 O) -> vis0 O a = true) ->
+  xw_hasoff W = false ->
+  (forall x i n, eqv (vadj O (sfn "diag" [x] (i, i, n))) (sfn "diag" [vadj O x] (i, i, n))) ->
+  fn_total W -> mem_string "H" (xw_inputs W) = true ->
+  forall fuel calls0 rs os s' i tb name ix v,
+    fuel_ok main_alg fuel rs ->
+    run_all O main_alg (compile main_alg) W fuel (init_state main_alg W calls0) rs = (os, s') ->
+    nth_error rs i = Some (tb, name, ix) -> nth_error os i = Some (Ok v) ->
+    forall f w, interp O main_alg (SW O W sfn) f (KN name) ix = Some w -> eqv (den O v) w.
+Proof.
+  intros V O eqv L W sfn H1 H2 H3 H4 H5 H6 Hf HH fuel calls0 rs os s' i tb name ix v Hb E.
+  exact (L_C09_sound_main V O eqv L W sfn H1 H2 H3 H4 H5 H6 fuel calls0 rs os s' i tb name ix v E
+           (L_C09_terminates_main V O W Hf HH fuel calls0 rs os s' Hb E)).
+Qed.
+
+Lemma L_C09_sound_nh_total :
+  forall (V : Type) (O : vops V) (eqv : V -> V -> Prop), vlaws O eqv ->
+  forall (W : xworld V) (sfn : string -> list V -> index -> V),
+  (forall x, In x (xw_inputs W) -> has_at x = false) ->
+  (forall f l l' ix, Forall2 eqv l l' -> eqv (sfn f l ix) (sfn f l' ix)) ->
+  (forall f args ix r, xw_fn W f args ix = Ok r -> eqv (den O r) (sfn f (map (den O) args) ix)) ->
+  fn_total W -> mem_string "H" (xw_inputs W) = true ->
+  forall fuel calls0 rs os s' i tb name ix v,
+    fuel_ok nonhermitian_alg fuel rs ->
+    run_all O nonhermitian_alg (compile nonhermitian_alg) W fuel (init_state nonhermitian_alg W calls0) rs = (os, s') ->
+    nth_error rs i = Some (tb, name, ix) -> nth_error os i = Some (Ok v) ->
+    forall f w, interp O nonhermitian_alg (SW O W sfn) f (KN name) ix = Some w -> eqv (den O v) w.
+Proof.
+  intros V O eqv L W sfn H1 H2 H3 Hf HH fuel calls0 rs os s' i tb name ix v Hb E.
+  destruct (@no_herm_valid V O eqv nonhermitian_alg W sfn eq_refl) as [A B].
+  assert (WO : world_ok O eqv nonhermitian_alg W sfn) by (split; auto).
+  exact (@schedule_value V O eqv L nonhermitian_alg W sfn WO fuel calls0 rs os s' i tb name ix v E
+           (L_C09_terminates_nh V O W Hf HH fuel calls0 rs os s' Hb E)).
+Qed.
+
+(** after any faults, later requests still terminate (with a value or an exception) *)
+Lemma L_C11_later_requests_terminate :
+  forall (V : Type) (O : vops V) (alg : algorithm) (W : xworld V),
+  stratified alg = true -> fn_total W -> start_inputs_ok alg W ->
+  forall (fp : nat -> option exn) fuel c rs os s1,
+    fuel_ok alg fuel rs ->
+    run_all O alg (compile alg) (with_faults W fp) fuel (init_state alg W c) rs = (os, s1) ->
+    Forall (fun o => o <> OutOfFuel) os /\
+    forall fuel' tb name ix r s2,
+      fuel_bound alg ix <= fuel' ->
+      run O alg (compile alg) (with_faults W fp) fuel' s1 (tb, name, ix) = (r, s2) ->
+      r <> OutOfFuel.
+Proof.
+  intros V O alg W Hs Hf Hi fp fuel c rs os s1 Hb E.
+  destruct (run_all_no_oof V O alg (with_faults W fp) Hs Hf Hi fuel rs _ os s1 (init_SI V O alg (with_faults W fp) c) Hb E) as [N I].
+  split; [exact N|]. intros fuel' tb name ix r s2 Hb' E'.
+  exact (proj1 (run_no_oof V O alg (with_faults W fp) Hs Hf Hi fuel' s1 tb name ix r s2 I Hb' E')).
 Qed.
